@@ -4,6 +4,8 @@ set -e
 cd "$(dirname "$0")"
 export CARGO_NET_OFFLINE=true
 mkdir -p target evidence replays
+# the vectors variant first (C29), then the default build the other checks use
+( cd harness && cargo build --release --bin check --features vectors )
 ( cd harness && cargo build --release --bin check )
 # the CLI binary C25 runs as a subprocess
 cargo build --release --offline --manifest-path /repo/Cargo.toml -p searchlite-cli --target-dir "$(pwd)/target/repo-bins"
